@@ -264,7 +264,7 @@ func checkC11(p *Prog, r *Report) {
 						payload = stripConv(wcall.Common().Args[0], true)
 					}
 				}
-				if d := slogAttr(rec, lkData); nil != d && d == payload {
+				if d := slogAttr(rec, lkData); nil != d && (d == payload || stripConv(d, true) == stripConv(payload, true)) {
 					rIn.OK(c+":data", posOf(rec), "data is the string that was written")
 				} else {
 					rIn.Bad(c+":data", posOf(rec), "the record's %q attribute is not the string that was written", lkData)
